@@ -274,6 +274,6 @@ func C20(tier string) int {
 		Prop: "C20", Level: "model_checking", Scopes: []string{"c20-flat", "c20-nested"},
 		Rule:        "breadth-first enumeration of all programs within the bound from each seed state, at page sizes 1024/4096/16384 with the freelist persisted or not; directly after every commit the file is copied and `surgery freelist abandon`, then `surgery freelist rebuild` on the abandoned file, and `surgery revert-meta-page` are run (the real command tree, in-process); oracle: abandon/rebuild outputs have the same logical content as the model, their loaded free list equals the decoder's set of unreachable pages, the rebuilt file persists exactly that list, Tx.Check and page accounting are clean, a follow-up commit works; the reverted file opens at exactly the previous version (content and txid) and accepts a commit; every command leaves its source byte-identical and creates only its output file; rebuild refuses a file that still has a freelist",
 		Assumptions: []string{"commands are run through command.NewRootCommand() in the worker process; the exit status mapping of main.go is covered by C19's binary runs"},
-		Quick:       100 * time.Second, Thorough: 25 * time.Minute,
+		Quick:       100 * time.Second, Thorough: 10 * time.Minute,
 	}, tier)
 }
